@@ -265,6 +265,28 @@ impl WorldC {
         m
     }
 
+    /// quiescence: a refund can only be paid from what the multisig holds; if an executed proposal spent the pot,
+    /// the environment refills it (native) — for a cw20 deposit the caller just learns whether it is payable
+    fn ensure_refund_payable(&mut self, m: &MsigState, t: &PropTrack, out: &mut Vec<Violation>) -> bool {
+        let d = match &t.deposit {
+            Some(d) => d.clone(),
+            None => return true,
+        };
+        let need = d.amount.u128();
+        match &d.denom {
+            cw20::Denom::Native(dn) => {
+                if self.chain.bank_balance(&m.addr, dn) < need {
+                    self.chain.mint(&m.addr, vec![Coin::new(need, dn.clone())]);
+                    self.meter.hit("quiescence_refilled_the_deposit_pot");
+                    // the refill is not a transaction: take a fresh baseline for "a failed transaction changes nothing"
+                    self.observe_msigs(None, out);
+                }
+                true
+            }
+            cw20::Denom::Cw20(_) => self.token_balance(&m.addr) >= need,
+        }
+    }
+
     fn executor_allows(&self, m: &MsigState, caller: &str, members_before: &Members) -> bool {
         match &m.executor {
             None => true,
@@ -1152,7 +1174,9 @@ impl WorldC {
                             if !self.users.contains(&caller) {
                                 continue;
                             }
-                            let retry = retryable_payload(self, &t.msgs);
+                            // the refund must be payable: top the pot up if an earlier proposal spent it
+                            let payable = self.ensure_refund_payable(&m, &t, out);
+                            let retry = retryable_payload(self, &t.msgs) && payable;
                             let step = Step::Tx {
                                 sender: caller,
                                 target: m.label.clone(),
@@ -1183,6 +1207,9 @@ impl WorldC {
                         }
                         "Open" | "Rejected" => {
                             if t.deposit.as_ref().map(|d| d.refund_failed_proposals).unwrap_or(false) && t.refunded == 0 {
+                                if !self.ensure_refund_payable(&m, &t, out) {
+                                    continue;
+                                }
                                 let step = Step::Tx {
                                     sender: self.users[0].clone(),
                                     target: m.label.clone(),
